@@ -2,7 +2,7 @@
 
    Input, one program per line:
      <id> P <v> <hr> <seek> <cipher 0..4> <id0|-> <id1|-> <nops> <op>... Q <k> (<n> <g> <v|k>)*k
-   ops:  A | U n g <pobj> <big> | C k (n g)*k m <pobj>*m <big> | O n g <dict> nf (<namehex> <dict>)*nf
+   ops:  A | U n g <pobj> <big> | C k (n g)*k m <pobj>*m nb <big>*nb | O n g <dict> nf (<namehex> <dict>)*nf
          | W <hex> <0|1> | S <big> | Z <cat> <0 | 1 <info>>
    pobj: o <value> | s <dict> <hex> <big>
    values (prefix code): n t f i<dec> r<text> N<hex> S<hex> A<k> v*k D<k> (<hexkey> v)*k R<n>.<g>
@@ -101,7 +101,11 @@ let rec parse_ops n ts acc =
              let (p, ts') = parse_pobj ts in objs (m - 1) ts' (p :: acc) in
          let (os, r3) = objs (int_of_string m) r2 [] in
          (match r3 with
-          | big :: r4 -> parse_ops (n - 1) r4 (WriteCompressed (rs, os, big = "1") :: acc)
+          | nb :: r4 ->
+            let rec flags k ts acc = if k = 0 then (Stdlib.List.rev acc, ts) else
+                match ts with b :: ts' -> flags (k - 1) ts' ((b = "1") :: acc) | [] -> raise (Bad "C flags") in
+            let (bigs, r5) = flags (int_of_string nb) r4 [] in
+            parse_ops (n - 1) r5 (WriteCompressed (rs, os, bigs) :: acc)
           | [] -> raise (Bad "C"))
        | [] -> raise (Bad "C"))
     | "O" :: a :: b :: r ->
@@ -208,7 +212,7 @@ let () =
             | _ -> ());
            if st.closed then begin
              Printf.printf "%s selfcheck %s\n" id
-               (if !prefilter || int_of_n st.nextRef > 5000 || !qrefs = [] then "skipped" else if Inst.self_check fdec_table cfg st !qrefs then "1" else "0");
+               (if !prefilter || int_of_n st.nextRef > 5000 || int_of_string nops > 5000 || !qrefs = [] then "skipped" else if Inst.self_check fdec_table cfg st !qrefs then "1" else "0");
              (match files, ciph with
               | Some oc, CNone -> Printf.fprintf oc "%s %s\n" id (hex_of_bytes st.out)
               | _ -> ())
